@@ -378,10 +378,85 @@ fn absolute_race(a: &Args, rep: &mut Report) {
     }
 }
 
+/// A lazily hashed static key (what the macros build) used for the first time by several threads at once: each
+/// registers the counter and increments it once. The final snapshot must show every such counter with all increments.
+fn first_use_race(a: &Args, rep: &mut Report) {
+    if cfg!(miri) {
+        return;
+    }
+    const T: u64 = 3;
+    let rec = Arc::new(DebuggingRecorder::new());
+    let snap = rec.snapshotter();
+    let rounds = a.budget(160_000, 4_000_000);
+    let round = Arc::new(AtomicU64::new(0));
+    let done = Arc::new(AtomicU64::new(0));
+    let slot = Arc::new(std::sync::atomic::AtomicUsize::new(0));
+    let mut hs = Vec::new();
+    for _ in 0..T {
+        let (rec, round, done, slot) = (rec.clone(), round.clone(), done.clone(), slot.clone());
+        hs.push(std::thread::spawn(move || {
+            let mut k = 1u64;
+            loop {
+                let mut spins = 0u32;
+                loop {
+                    let cur = round.load(Ordering::Acquire);
+                    if cur == u64::MAX {
+                        return;
+                    }
+                    if cur >= k {
+                        break;
+                    }
+                    spins += 1;
+                    if spins % 2048 == 0 {
+                        std::thread::yield_now();
+                    }
+                }
+                let key: &'static Key = unsafe { &*(slot.load(Ordering::Acquire) as *const Key) };
+                rec.register_counter(key, &MD).increment(1);
+                done.fetch_add(1, Ordering::AcqRel);
+                k += 1;
+            }
+        }));
+    }
+    for k in 1..=rounds {
+        let name: &'static str = Box::leak(format!("fu{}", k).into_boxed_str());
+        let key: &'static Key = Box::leak(Box::new(Key::from_static_name(name)));
+        slot.store(key as *const Key as usize, Ordering::Release);
+        round.store(k, Ordering::Release);
+        let mut spins = 0u32;
+        while done.load(Ordering::Acquire) < T * k {
+            spins += 1;
+            if spins % 2048 == 0 {
+                std::thread::yield_now();
+            }
+        }
+    }
+    round.store(u64::MAX, Ordering::Release);
+    for h in hs {
+        let _ = h.join();
+    }
+    let mut wrong: Vec<String> = Vec::new();
+    let mut listed = 0u64;
+    for (ck, _, _, v) in snap.snapshot().into_vec() {
+        if let DebugValue::Counter(c) = v {
+            listed += 1;
+            if c != T && wrong.len() < 5 {
+                wrong.push(format!("{} shows {} (expected {})", ck.key().name(), c, T));
+            }
+        }
+    }
+    rep.count("first_use_race_rounds", rounds);
+    rep.case(mix(rounds, listed), true);
+    if !wrong.is_empty() || listed != rounds {
+        rep.violation("C19:counter-below-true-state:first-use-race", jo! {"what" => "counters registered for the first time by several threads at once (lazily hashed static keys) are not all listed once with every increment", "keys" => rounds, "listed" => listed, "examples" => J::A(wrong.into_iter().map(J::s).collect())});
+    }
+}
+
 fn run_concurrent(a: &Args) -> Report {
     let mut rep = Report::new("C19", &a.leg, a.seed);
     if a.leg == "concurrent" {
         absolute_race(a, &mut rep);
+        first_use_race(a, &mut rep);
     }
     let mut r = Rng::new(a.shard_seed());
     let miri = cfg!(miri);
